@@ -430,6 +430,17 @@ func checkC11(c C11Case, r *Rec) *Violation {
 					return Violf("C11: variable %q evaluates to %v (%T) but is bound to %v (%T), normalised %v (config %s)\n%s", n, got[j], got[j], c.Vals[idx].X, c.Vals[idx].X, want[idx], maskName(mask), describe())
 				}
 			}
+			// every value was supplied: TryEval reads the same values under the same keys
+			ot := Safe(func() (eval.Value, error) { return e.TryEval(ctx) })
+			gt, okt := ot.Val.([]eval.Value)
+			if ot.Panic != nil || ot.Err != nil || !okt || len(gt) != len(got) {
+				return Violf("C11: TryEval over a context that holds every value does not read the variables: %v (Eval: %v)\n%s", ot, o, describe())
+			}
+			for j := range got {
+				if !equalNormalised(gt[j], got[j]) {
+					return Violf("C11: TryEval reads %v (%T) for variable %q, Eval reads %v (config %s)\n%s", gt[j], gt[j], names[j], got[j], maskName(mask), describe())
+				}
+			}
 		}
 	}
 	// single-variable programs
